@@ -120,17 +120,17 @@ pub struct UK {
 
 // an import statement long enough for a formatter to wrap it over several lines
 #[derive(TS, Serialize, Deserialize, Clone, Debug, Samples)]
-#[ts(export_to = "fmt/deps.ts")]
+#[ts(export_to = "fmt/de;ps.ts")]
 pub struct LongDependencyNameNumberOne {
     pub one: i32,
 }
 #[derive(TS, Serialize, Deserialize, Clone, Debug, Samples)]
-#[ts(export_to = "fmt/deps.ts")]
+#[ts(export_to = "fmt/de;ps.ts")]
 pub struct LongDependencyNameNumberTwo {
     pub two: i32,
 }
 #[derive(TS, Serialize, Deserialize, Clone, Debug, Samples)]
-#[ts(export_to = "fmt/deps.ts")]
+#[ts(export_to = "fmt/de;ps.ts")]
 pub struct LongDependencyNameNumberThree {
     pub three: i32,
 }
